@@ -43,6 +43,48 @@ func seedGlobalRand(c interface{}) {
 	rand.Seed(int64(h.Sum64()))
 }
 
+// One in-process redis, one harness clock and one RedisStore per (window, windows)
+// configuration live for the whole process: a store (and its connection pool, which
+// RedisStore.Close does not release) per case would burn two TCP connections per
+// case and exhaust the ephemeral ports in the thorough tier. Cases run one at a
+// time; each starts from FLUSHALL and its own start time.
+var shared struct {
+	mr     *miniredis.Miniredis
+	clk    *hclock
+	stores map[[2]int]*peerstore.RedisStore
+}
+
+func env(windowSec, windows int) (*miniredis.Miniredis, *hclock, *peerstore.RedisStore, error) {
+	if shared.mr == nil {
+		mr, err := miniredis.Run()
+		if err != nil {
+			return nil, nil, nil, err
+		}
+		shared.mr = mr
+		shared.clk = &hclock{Mock: clock.NewMock()}
+		shared.stores = map[[2]int]*peerstore.RedisStore{}
+	}
+	key := [2]int{windowSec, windows}
+	s := shared.stores[key]
+	if s == nil {
+		var err error
+		s, err = peerstore.NewRedisStore(peerstore.RedisConfig{
+			Addr:              shared.mr.Addr(),
+			PeerSetWindowSize: time.Duration(windowSec) * time.Second,
+			MaxPeerSetWindows: windows,
+			MaxIdleConns:      1,
+			IdleConnTimeout:   24 * time.Hour,
+			ReadTimeout:       2 * time.Minute,
+			WriteTimeout:      2 * time.Minute,
+		}, shared.clk)
+		if err != nil {
+			return nil, nil, nil, err
+		}
+		shared.stores[key] = s
+	}
+	return shared.mr, shared.clk, s, nil
+}
+
 type Peer struct {
 	ID       string `json:"id"`    // 40 hex digits
 	Addr     string `json:"addr"`  // what the agent reports as its ip / host name
@@ -165,50 +207,55 @@ type rec struct {
 	flags    map[bool]bool // every flag value the peer ever announced for the torrent
 }
 
+// run judges the case; a store call that returns an error (which may be a broken
+// connection to the in-process redis rather than the store's doing) is only
+// reported when it happens again on a second run of the case (the store's
+// connection pool discards a connection that failed and dials a new one).
 func run(c Case) pbt.Verdict {
+	v, ioErr := runOnce(c)
+	if !ioErr {
+		return v
+	}
+	v2, _ := runOnce(c)
+	if v2.Violation == "" {
+		v2.Classes = append(v2.Classes, "store-error-not-reproduced")
+	}
+	return v2
+}
+
+func runOnce(c Case) (verdict pbt.Verdict, storeError bool) {
 	if c.WindowSec < 1 || c.WindowSec > 86400 || c.Windows < 2 || c.Windows > 50 || c.OffsetSec < 0 || c.OffsetSec >= c.WindowSec || len(c.Peers) == 0 || len(c.Peers) > 64 {
-		return pbt.Verdict{Discard: true}
+		return pbt.Verdict{Discard: true}, false
 	}
 	ids := make([]core.PeerID, len(c.Peers))
 	idx := map[core.PeerID]int{}
 	for i, p := range c.Peers {
 		id, err := core.NewPeerID(p.ID)
 		if err != nil || p.Port < 0 || p.Port > 65535 {
-			return pbt.Verdict{Discard: true}
+			return pbt.Verdict{Discard: true}, false
 		}
 		if _, dup := idx[id]; dup {
-			return pbt.Verdict{Discard: true}
+			return pbt.Verdict{Discard: true}, false
 		}
 		ids[i] = id
 		idx[id] = i
 	}
 	for _, s := range c.Steps {
 		if s.K < 0 || s.K > 2 || s.Peer < 0 || s.Peer >= len(c.Peers) || s.T < 0 || s.T >= numTorrents || s.N < 0 || s.Sec < 0 {
-			return pbt.Verdict{Discard: true}
+			return pbt.Verdict{Discard: true}, false
 		}
 	}
 	seedGlobalRand(c)
 
-	mr, err := miniredis.Run()
-	if err != nil {
-		return pbt.Verdict{Discard: true} // infrastructure: could not start the in-process redis
-	}
-	defer mr.Close()
 	window := time.Duration(c.WindowSec) * time.Second
 	start := time.Unix(1600000000-1600000000%int64(c.WindowSec)+int64(c.OffsetSec), 0)
-	clk := &hclock{Mock: clock.NewMock()}
+	mr, clk, s, err := env(c.WindowSec, c.Windows)
+	if err != nil {
+		return pbt.Verdict{Discard: true}, false // infrastructure: the in-process redis could not be started or reached
+	}
+	mr.FlushAll()
 	clk.ns.Store(start.UnixNano())
 	mr.SetTime(start)
-	s, err := peerstore.NewRedisStore(peerstore.RedisConfig{
-		Addr:              mr.Addr(),
-		PeerSetWindowSize: window,
-		MaxPeerSetWindows: c.Windows,
-		MaxIdleConns:      1,
-	}, clk)
-	if err != nil {
-		return pbt.Verdict{Discard: true}
-	}
-	defer s.Close()
 
 	// Every announcement stays readable while less than (windows-1) * window has passed since
 	// it was made (its window is then still one of the windows a lookup reads and its key has
@@ -221,6 +268,7 @@ func run(c Case) pbt.Verdict {
 	classes := map[string]bool{}
 	fullLookups, windowsCrossed := 0, 0
 
+	storeErr := false
 	lookup := func(step int, t, n int) string {
 		pop := len(model[t])
 		full := n == 0
@@ -233,6 +281,7 @@ func run(c Case) pbt.Verdict {
 		}
 		got, err := s.GetPeers(torrent(t), n)
 		if err != nil {
+			storeErr = true
 			return fmt.Sprintf("GetPeers failed (step %d): %v", step, err)
 		}
 		where := fmt.Sprintf("step %d: GetPeers(t%d, %d), %d peers announced, window %ds x %d", step, t, n, pop, c.WindowSec, c.Windows)
@@ -303,7 +352,7 @@ func run(c Case) pbt.Verdict {
 			}
 			p := core.NewPeerInfo(ids[st.Peer], c.Peers[st.Peer].Addr, c.Peers[st.Peer].Port, false, complete)
 			if err := s.UpdatePeer(torrent(st.T), p); err != nil {
-				return pbt.Fail("UpdatePeer failed (step %d, class %s addr %q): %v", i, c.Peers[st.Peer].Class, c.Peers[st.Peer].Addr, err)
+				return pbt.Fail("UpdatePeer failed (step %d, class %s addr %q): %v", i, c.Peers[st.Peer].Class, c.Peers[st.Peer].Addr, err), true
 			}
 			if m == nil {
 				m = &rec{flags: map[bool]bool{}}
@@ -330,7 +379,7 @@ func run(c Case) pbt.Verdict {
 			}
 		case 2:
 			if msg := lookup(i, st.T, st.N); msg != "" {
-				return pbt.Fail("%s", msg)
+				return pbt.Fail("%s", msg), storeErr
 			}
 			if st.N > 0 {
 				classes["partial-lookup"] = true
@@ -339,7 +388,7 @@ func run(c Case) pbt.Verdict {
 	}
 	for t := 0; t < numTorrents; t++ {
 		if msg := lookup(len(c.Steps)+t, t, 0); msg != "" {
-			return pbt.Fail("%s", msg)
+			return pbt.Fail("%s", msg), storeErr
 		}
 	}
 	announced := map[int]bool{}
@@ -359,7 +408,7 @@ func run(c Case) pbt.Verdict {
 		cl = append(cl, k)
 	}
 	sort.Strings(cl)
-	return pbt.OK(fullLookups > 0 && len(announced) > 0, cl...)
+	return pbt.OK(fullLookups > 0 && len(announced) > 0, cl...), false
 }
 
 func TestProp(t *testing.T) {
@@ -371,6 +420,7 @@ func TestProp(t *testing.T) {
 			"miniredis v2.5.0 stands in for Redis (SADD, EXPIREAT, SRANDMEMBER); its clock is set and fast-forwarded together with the harness clock",
 			"peer ids are distinct per peer; a peer keeps its address and port; completion flags never go back to false",
 			"expiry of old windows is not judged (the statement is about round-tripping)",
+			"a store call returning an error is reported only if it does so again on a second run of the case",
 		},
 		Parts: []pbt.Part{pbt.NewPart("roundtrip", 1, gen, run)},
 	})
